@@ -255,7 +255,7 @@ def make_case(g, n, cls, cplx, M, tol, starts, eigs=False, scale=1.0, stream="A"
 def stream(ctx, g):
     out = []
     nmax = 12 if not ctx.thorough else 40
-    reps = 4 if not ctx.thorough else 12
+    reps = 4 if not ctx.thorough else 40
     tols = [1e-7, 1e-3, 1e-8, 1e-5]
     for rep in range(reps):
         # A. every n, every class, every max_iters = 1..n+3, single start vectors (with arnoldi_eigs)
